@@ -2,6 +2,7 @@ SPECIFICATION FairSpec
 CONSTANTS MaxN = 2
           WrapperConsumes = FALSE
           ReleaseWakesWaiter = TRUE
+          SentinelOnlyIfEmpty = FALSE
           PauseCoversEncode = TRUE
 INVARIANT TypeOK
 INVARIANT C07_NeverSwallowed
